@@ -47,7 +47,8 @@ SPEC = {
                   "uploaders, when all run in mode local (C07_concurrent_whole_week_mode_local); uniqueness/immutability "
                   "(C07_concurrent_single_report_partial) and no-file-twice hold for any N in any mode; two concurrent "
                   "uploaders in mode on are covered by the suite's sweeps only. one_report_per_week has the premise that the ready-file names of the directory's OTHER weeks do not "
-                  "contain W as a substring; C07_one_report_per_week_dates discharges it for end times of the years 0..9999. Count-file "
+                  "contain W as a substring; C07_one_report_per_week_dates discharges it when the week strings are ten bytes long (years 0..9999, "
+                  "proved in C09's date_roundtrip, not re-imported here). Count-file "
                   "contents are abstract (result of counter.Parse + span extraction: begin, end, program identity, counters); "
                   "report bodies are abstract (week, lastWeek, filtered?, list of count files folded, author); per-program "
                   "sums and the upload filter are C01's subject and appear only in the correspondence (canonical sums, every "
